@@ -13,9 +13,13 @@ Import ListNotations.
    not) under which the software run only branches on defined single-bit conditions:
    the elaborated circuit's signals carry exactly the software run's final values (same variables,
    same order, same four-state value), and the Read snapshots whose enclosing full condition is
-   true are exactly the values the software run saw at those program points, in program order. *)
+   true are exactly the values the software run saw at those program points, in program order.
+   [no_bare_else_if]: the condition of an `ELSE IF (c)` written with a space (an IF nested in an
+   ELSE by the macros) is not a bare variable reference; see elab_else_if_same_condition_refuted.
+   IF / ELSEIF / ELSE programs satisfy it trivially. *)
 Theorem elab_correct : forall (p : block) (n0 : nat) (inp : list bv) (E : env) (R : list rdval),
   1 <= n0 ->
+  no_bare_else_if p = true ->
   run_prog inp p = Some (E, R) ->
   let st := elab_prog n0 p in
   let vs := eval_all inp (eG st) in
@@ -42,16 +46,30 @@ Definition ex_prog : block :=
       (Some (block_of [Assign 1 [] (ENot (ESig 0)); Read 2 1]));
     Read 3 1 ].
 Example elab_correct_ex :
+  no_bare_else_if ex_prog = true /\
   (exists E R, run_prog [bv_of_N 2 0; bv_of_N 8 5] ex_prog = Some (E, R) /\ length R = 3) /\
   (exists E R, run_prog [bv_of_N 2 1; bv_of_N 8 6] ex_prog = Some (E, R) /\
                lookup 1 E = Some (bv_of_N 8 12)) /\
   (exists E R, run_prog [bv_of_N 2 3; bv_of_N 8 6] ex_prog = Some (E, R) /\
                lookup 1 E = Some (bv_of_N 8 249)).
-Proof. repeat split; eexists; eexists; split; vm_compute; reflexivity. Qed.
+Proof. split; [reflexivity|]. repeat split; eexists; eexists; split; vm_compute; reflexivity. Qed.
+
+(* an `ELSE IF` (with a space) chain whose conditions are comparisons: covered by the theorem *)
+Definition ex_prog_sp : block :=
+  block_of [Decl 0 false (EConst (bv_of_N 4 0));
+            If (EEq (EIn 0) (EConst (bv_of_N 2 0))) (block_of [Assign 0 [] (EConst (bv_of_N 4 1))])
+              (CElseSp (EEq (EIn 0) (EConst (bv_of_N 2 1))) (block_of [Assign 0 [] (EConst (bv_of_N 4 2))])
+                (CElseSp (EEq (EIn 0) (EConst (bv_of_N 2 2))) (block_of [Assign 0 [] (EConst (bv_of_N 4 3))])
+                   (CElse (block_of [Assign 0 [] (EConst (bv_of_N 4 4))]))))].
+Example elab_correct_ex_sp :
+  no_bare_else_if ex_prog_sp = true /\
+  run_prog [bv_of_N 2 2] ex_prog_sp = Some ([(0, bv_of_N 4 3)], []) /\
+  run_prog [bv_of_N 2 3] ex_prog_sp = Some ([(0, bv_of_N 4 4)], []).
+Proof. repeat split. Qed.
 
 (* the same, variable by variable: every variable in scope at the end *)
 Theorem elab_correct_signal : forall p n0 inp E R x v,
-  1 <= n0 -> run_prog inp p = Some (E, R) -> lookup x E = Some v ->
+  1 <= n0 -> no_bare_else_if p = true -> run_prog inp p = Some (E, R) -> lookup x E = Some v ->
   exists r, lookup x (eSigs (elab_prog n0 p)) = Some r /\
             getv (eval_all inp (eG (elab_prog n0 p))) (sr_drv r) = v.
 Proof. exact FrontendSpec.elab_correct_signal_main. Qed.
@@ -60,6 +78,20 @@ Example elab_correct_signal_ex :
   exists r, lookup 1 (eSigs (elab_prog 1 ex_prog)) = Some r /\
             getv (eval_all [bv_of_N 2 2; bv_of_N 8 6] (eG (elab_prog 1 ex_prog))) (sr_drv r) = bv_of_N 8 128.
 Proof. eexists; split; vm_compute; reflexivity. Qed.
+
+(* REFUTED without [no_bare_else_if] (a genuine deviation of the frontend from software semantics):
+   `IF (b) x = 1; ELSE IF (b) x = 2; ELSE x = 3;` with the same Bit variable b twice.  The ELSE
+   destructor compares ports to find out whether a nested scope was closed; with identical ports it
+   takes the wrong branch and the final ELSE gets the condition b instead of NOT b. *)
+Theorem elab_else_if_same_condition_refuted :
+  no_bare_else_if same_cond_prog = false /\
+  (forall b, exists E,
+     run_prog [[of_bool b]] same_cond_prog = Some (E, []) /\
+     lookup 1 E = Some (bv_of_N 2 (if b then 1 else 3)) /\
+     lookup 1 (sig_values (eval_all [[of_bool b]] (eG (elab_prog 1 same_cond_prog))) (eSigs (elab_prog 1 same_cond_prog)))
+       = Some (bv_of_N 2 (if b then 3 else 0))).
+Proof. exact FrontendSpec.elab_else_if_same_condition_refuted_main. Qed.
+Print Assumptions elab_else_if_same_condition_refuted.
 
 (* the hypothesis 1 <= n0 cannot be dropped: with scope ids starting at 0 the assignment in a top
    level IF would be unconditional (the test is scope id > m_initialScopeId, and 0 > 0 fails) *)
